@@ -171,6 +171,13 @@ func c05Independent(w *core.W, r *model.Rec, text string, cls string, wit map[st
 	if c, ok := classFromText(toks[2].Raw); !ok || c != r.Class {
 		w.Violation("C05/independent-class/"+tn+cls, fmt.Sprintf("class token %q, want %d", toks[2].Raw, r.Class), wit)
 	}
+	if bespokeText[r.Type] {
+		w.Count("independent_reads_bespoke", 1)
+		if why := c05Bespoke(r, toks[4:]); why != "" {
+			w.Violation("C05/independent-read-differs/"+tn+cls, fmt.Sprintf("the text, read from the RFC's description of the %s format, does not denote the record: %s\n text: %s", tn, why, cutS(text)), wit)
+		}
+		return
+	}
 	if !regularText[r.Type] {
 		return
 	}
